@@ -92,6 +92,9 @@ func (g *gen) funcInChanOut(name string, typ types.Type) (inTyp, outTyp types.Ty
 	if !ok {
 		return nil, nil, fmt.Errorf("%s, the result, %s, is not of type chan", name, g.TypeString(resType))
 	}
+	if derive.IsSendOnlyChan(chanType) {
+		return nil, nil, fmt.Errorf("%s, the result, %s, is a send only channel, which cannot be received from", name, g.TypeString(resType))
+	}
 	return params.At(0).Type(), chanType.Elem(), nil
 }
 
